@@ -4,7 +4,7 @@ import random
 IDENTS = ["a", "b", "c", "rs", "scope_spans", "spans", "attributes", "key", "value", "Value",
           "StringValue", "IntValue", "name", "scope", "k1", "_x", "and", "if", "not_here", "resource",
           "trace_id", "X9"]
-KEY_VALUES = ["http.method", "service.name", "x", "k v", "app-1", "café", "a:b", "0"]
+KEY_VALUES = ["http.method", "service.name", "x", "k v", "app-1", "café", "a:b", "0", "", ""]
 FIELD_NAMES = ["job_name", "job_id", "event_type", "event_id", "start_timestamp", "end_timestamp",
                "application_name", "parent_event_id", "child_event_ids", "field_1", "f 2", "z-3"]
 
